@@ -1,4 +1,254 @@
 import GeodeVerif.Model.Sinex
+/-!
+# Abstract SINEX solution, its rendering and the abstract edit operations  (property C18)
+
+What the property demands, in its own vocabulary: a solution is an ordered list of sites, an
+ordered list of (site × solution number) entries with 3 or 6 parameters each, a covariance matrix
+over the parameters of which the `L` or `U` triangle is stored, and a header.  `render` writes it
+as SINEX 2.02 text in the layout the editors produce; `removeStns`, `removeVel` are the edits on the
+abstract side, `dropZero` the zero-line removal on the rendered matrix block.
+
+Fields that the editors never look into are kept as opaque text (`rest`), so the statements hold
+for every content of those columns.  Matrix entries are the value *tokens* (e.g.
+`1.23456789012345e-05`); well-formedness demands that each is a fixed point of
+`'{:21.14e}'.format(float(tok))` — a decidable condition the generated files satisfy
+(15 significant digits round-trip through binary64).
+
+Mathlib-free: `wfText` is evaluated by `snxdrv` on generated files.
+-/
 namespace Sinex.Spec
-def wfText (_ : List Str) : Bool := true
+open Sinex
+
+structure Site where
+  /-- columns 1–4 of the SITE/ID line -/
+  code : Str
+  /-- columns 5… -/
+  rest : Str
+  deriving Repr, DecidableEq
+
+structure Param where
+  /-- columns 7–12 of the SOLUTION/ESTIMATE line (`STAX  `, `VELY  `, …) -/
+  typ : Str
+  /-- columns 18… (point code, solution number, epoch, unit, constraint, value, sigma) -/
+  rest : Str
+  deriving Repr, DecidableEq
+
+structure Soln where
+  code : Str
+  /-- columns 5… of the SOLUTION/EPOCHS line -/
+  erest : Str
+  params : List Param
+  deriving Repr, DecidableEq
+
+structure Sol where
+  /-- header columns 0–14 (`%=SNX 2.02 AGY `) -/
+  hdrA : Str
+  /-- creation time `YY:DDD:SSSSS`, columns 15–26 -/
+  stamp : Str
+  /-- columns 27–59 -/
+  hdrB : Str
+  /-- columns 65–68 (constraint code and first content flag) -/
+  hdrC : Str
+  /-- velocity flag ` V` in columns 69–70 -/
+  vel : Bool
+  tri : Tri
+  /-- the lines between `+FILE/COMMENT` and `-FILE/COMMENT` -/
+  comments : List Str
+  sites : List Site
+  solns : List Soln
+  /-- value token of parameters `i`, `j` (0-based); only the stored triangle is used -/
+  mat : Nat → Nat → Str
+
+/-- all parameters in file order, each with its station code -/
+def Sol.params (s : Sol) : List (Str × Param) :=
+  s.solns.flatMap (fun x => x.params.map (fun p => (x.code, p)))
+def Sol.n (s : Sol) : Nat := s.params.length
+def Sol.k (s : Sol) : Nat := if s.vel then 6 else 3
+
+/-! ## rendering -/
+
+def siteTitle : Str := "*CODE PT __DOMES__ T _STATION DESCRIPTION__ APPROX_LON_ APPROX_LAT_ _APP_H_".toList
+def epochTitle : Str := "*CODE PT SOLN T _DATA_START_ __DATA_END__ _MEAN_EPOCH_".toList
+def estTitle : Str :=
+  "*INDEX TYPE__ CODE PT SOLN _REF_EPOCH__ UNIT S __ESTIMATED VALUE____ _STD_DEV___".toList
+def matTitle : Str :=
+  "*PARA1 PARA2 ____PARA2+0__________ ____PARA2+1__________ ____PARA2+2__________".toList
+
+def headerLine (s : Sol) : Str :=
+  s.hdrA ++ s.stamp ++ s.hdrB ++ fmt0d 5 (s.n : Int) ++ s.hdrC ++ (if s.vel then " V".toList else [])
+
+def siteLine (x : Site) : Str := ' ' :: x.code ++ x.rest
+def epochLine (x : Soln) : Str := ' ' :: x.code ++ x.erest
+def estLine (idx : Nat) (code : Str) (p : Param) : Str :=
+  ' ' :: fmt5d (idx : Int) ++ ' ' :: p.typ ++ ' ' :: code ++ p.rest
+
+/-- estimate lines numbered `i+1, i+2, …` -/
+def estLinesFrom : Nat → List (Str × Param) → List Str
+  | _, [] => []
+  | i, cp :: r => estLine (i + 1) cp.1 cp.2 :: estLinesFrom (i + 1) r
+
+/-- stored tokens of row `i` (0-based) of an `n × n` matrix -/
+def rowToks (tri : Tri) (mat : Nat → Nat → Str) (n i : Nat) : List Str :=
+  match tri with
+  | .L => (List.range (i + 1)).map (mat i)
+  | .U => (List.range (n - i)).map (fun t => mat i (i + t))
+
+/-- PARA2 (1-based) of the first stored value of row `i` (0-based) -/
+def rowStart (tri : Tri) (i : Nat) : Nat :=
+  match tri with
+  | .L => 1
+  | .U => i + 1
+
+/-- the lines of one matrix row: groups of ≤ 3 consecutive values, PARA2 advancing by 3 -/
+def rowLines (p1 : Str) (start : Nat) (vals : List Str) : List Str :=
+  (List.range ((vals.length + 2) / 3)).map (fun c =>
+    matLine p1 ((start + 3 * c : Nat) : Int) ((vals.drop (3 * c)).take 3))
+
+def padTok (t : Str) : Str := padLeft 21 ' ' t
+
+def matLines (s : Sol) : List Str :=
+  (List.range s.n).flatMap (fun i =>
+    rowLines (fmt5d ((i + 1 : Nat) : Int)) (rowStart s.tri i) ((rowToks s.tri s.mat s.n i).map padTok))
+
+def triChar : Tri → Char
+  | .L => 'L'
+  | .U => 'U'
+
+def matHead (t : Tri) : Str := "+SOLUTION/MATRIX_ESTIMATE ".toList ++ triChar t :: " COVA".toList
+
+def commentBlock (s : Sol) : List Str := "+FILE/COMMENT".toList :: s.comments ++ ["-FILE/COMMENT".toList]
+def siteBlock (s : Sol) : List Str :=
+  "+SITE/ID".toList :: siteTitle :: s.sites.map siteLine ++ ["-SITE/ID".toList]
+def epochBlock (s : Sol) : List Str :=
+  "+SOLUTION/EPOCHS".toList :: epochTitle :: s.solns.map epochLine ++ ["-SOLUTION/EPOCHS".toList]
+def estBlock (s : Sol) : List Str :=
+  "+SOLUTION/ESTIMATE".toList :: estTitle :: estLinesFrom 0 s.params ++ ["-SOLUTION/ESTIMATE".toList]
+def matBlockOf (s : Sol) (ls : List Str) : List Str :=
+  matHead s.tri :: matTitle :: ls ++ ["-SOLUTION/MATRIX_ESTIMATE".toList]
+def matBlock (s : Sol) : List Str := matBlockOf s (matLines s)
+
+def renderWith (s : Sol) (mat : List Str) : List Str :=
+  headerLine s :: sepLine :: commentBlock s ++ sepLine :: siteBlock s ++ sepLine :: epochBlock s
+    ++ sepLine :: estBlock s ++ sepLine :: mat ++ ["%ENDSNX".toList]
+
+/-- the solution as SINEX 2.02 text (list of lines, each to be terminated by a newline) -/
+def render (s : Sol) : List Str := renderWith s (matBlock s)
+
+/-! ## abstract operations -/
+
+/-- the common part of every edit: new creation stamp, one more comment line -/
+def touch (s : Sol) (c : Clock) : Sol :=
+  { s with stamp := Sinex.stamp c, comments := s.comments ++ [createdLine c] }
+
+/-- increasing list of the (0-based) parameter indices whose station is not removed -/
+def keepIdx (s : Sol) (sites : List Str) : List Nat :=
+  (List.range s.n).filter (fun p => match s.params[p]? with
+    | some cp => !sites.contains cp.1
+    | none => false)
+
+def subMat (mat : Nat → Nat → Str) (keep : List Nat) : Nat → Nat → Str :=
+  fun a b => mat (keep.getD a 0) (keep.getD b 0)
+
+/-- remove every site (and all its solution numbers) whose code is in `sites` -/
+def removeStns (s : Sol) (sites : List Str) (c : Clock) : Sol :=
+  { touch s c with
+    sites := s.sites.filter (fun x => !sites.contains x.code)
+    solns := s.solns.filter (fun x => !sites.contains x.code)
+    mat := subMat s.mat (keepIdx s sites) }
+
+def isVel (p : Param) : Bool := p.typ.take 3 == "VEL".toList
+
+def keepPos (s : Sol) : List Nat :=
+  (List.range s.n).filter (fun p => match s.params[p]? with
+    | some cp => !isVel cp.2
+    | none => false)
+
+/-- remove the velocity parameters -/
+def removeVel (s : Sol) (c : Clock) : Sol :=
+  { touch s c with
+    vel := false
+    solns := s.solns.map (fun x => { x with params := x.params.filter (fun p => !isVel p) })
+    mat := subMat s.mat (keepPos s) }
+
+/-- a matrix line all of whose values are the token `0.00000000000000e+00` -/
+def zeroChunk (vals : List Str) : Bool := !vals.isEmpty && vals.all (· == zeroTok)
+
+def rowLinesNZ (p1 : Str) (start : Nat) (toks : List Str) : List Str :=
+  ((List.range ((toks.length + 2) / 3)).filter (fun c => !zeroChunk ((toks.drop (3 * c)).take 3))).map
+    (fun c => matLine p1 ((start + 3 * c : Nat) : Int) (((toks.drop (3 * c)).take 3).map padTok))
+
+/-- the matrix lines without the all-zero ones -/
+def matLinesNZ (s : Sol) : List Str :=
+  (List.range s.n).flatMap (fun i =>
+    rowLinesNZ (fmt5d ((i + 1 : Nat) : Int)) (rowStart s.tri i) (rowToks s.tri s.mat s.n i))
+
+/-- the text after dropping all-zero matrix lines -/
+def renderDropZero (s : Sol) : List Str := renderWith s (matBlockOf s (matLinesNZ s))
+
+/-! ## well-formedness (decidable) -/
+
+def noWs (t : Str) : Bool := !t.isEmpty && t.all (fun c => !isSpace c)
+def canonTok (t : Str) : Bool :=
+  noWs t && (match reformat t with
+    | .ok v => v == padTok t
+    | .error _ => false)
+
+def triOk (s : Sol) : Bool :=
+  (List.range s.n).all (fun i => (rowToks s.tri s.mat s.n i).all canonTok)
+
+def paramOk (idx : Nat) (p : Param) : Bool :=
+  p.typ.length == 6 && (isVel p == decide (3 ≤ idx))
+
+def paramsOk : Nat → List Param → Bool
+  | _, [] => true
+  | i, p :: ps => paramOk i p && paramsOk (i + 1) ps
+
+def Sol.wf (s : Sol) : Bool :=
+  s.hdrA.length == 15 && s.stamp.length == 12 && s.hdrB.length == 33 && s.hdrC.length == 4
+    && s.hdrA.head? == some '%'
+    && s.comments.all (fun c => startsWith ['*'] c)
+    && s.sites.all (fun x => x.code.length == 4)
+    && s.solns.all (fun x => x.code.length == 4 && x.params.length == s.k && paramsOk 0 x.params)
+    && decide (s.n < 100000)
+    && triOk s
+    && (render s).all (fun l => rstrip l == l)
+    && s.comments.all (fun c => strip c == c)
+
+/-! ## recognising a rendered solution in a text (for the tie: generated files satisfy the
+hypotheses of the theorems) -/
+
+def splitOnSep : List Str → List Str → List (List Str)
+  | [], cur => [cur.reverse]
+  | l :: ls, cur => if l == sepLine then cur.reverse :: splitOnSep ls [] else splitOnSep ls (l :: cur)
+
+def parseSol (lines : List Str) : Option Sol :=
+  match splitOnSep lines [] with
+  | [[h], cb, sb, eb, estb, mb] =>
+    let vel := h.drop 69 == " V".toList
+    let k := if vel then 6 else 3
+    let estData := (estb.drop 2).dropLast
+    let epochs := (eb.drop 2).dropLast
+    let solns : List Soln := (List.range epochs.length).map (fun i =>
+      let l := epochs.getD i []
+      ⟨slice 1 5 l, l.drop 5, ((estData.drop (k * i)).take k).map (fun e => ⟨slice 7 13 e, e.drop 18⟩)⟩)
+    match mb.head? >>= triOf with
+    | none => none
+    | some tri =>
+      let rows := (buildVcv ((mb.drop 2).dropLast.dropLast) []).map (·.2)
+      some { hdrA := h.take 15, stamp := slice 15 27 h, hdrB := slice 27 60 h, hdrC := slice 65 69 h,
+             vel := vel, tri := tri,
+             comments := (cb.drop 1).dropLast,
+             sites := ((sb.drop 2).dropLast).map (fun l => ⟨slice 1 5 l, l.drop 5⟩),
+             solns := solns,
+             mat := fun i j => match tri with
+               | .L => (rows.getD i []).getD j []
+               | .U => (rows.getD i []).getD (j - i) [] }
+  | _ => none
+
+/-- the text is `render s` for a well-formed `s` (the hypothesis of the C18 theorems) -/
+def wfText (lines : List Str) : Bool :=
+  match parseSol lines with
+  | some s => s.wf && render s == lines
+  | none => false
+
 end Sinex.Spec
